@@ -41,7 +41,7 @@ func gwDeclaredReq(o gateway.Object) int {
 func gwDeclaredResp(o gateway.Object) int {
 	switch r := o.(type) {
 	case *gateway.RPCShareNodes:
-		return 100 * 128
+		return 8 + 100*128 // since the fix of the missing slice prefix
 	case *gateway.RPCDiscoverIP:
 		return 128
 	case *gateway.RPCSendHeaders:
